@@ -724,9 +724,9 @@ class DFA:
             return True
         return False
 
-    def dfs(self):
+    def dfs(self, also_from=()):
         """
-        Construct a dfs-order traversal of the DFA
+        Construct a dfs-order traversal of the DFA (from the starting state, and from any additional states given)
         """
 
         visited = set()
@@ -757,6 +757,8 @@ class DFA:
                     yield from aux(t.target)
 
         yield from aux(self.starting_state)
+        for extra_root in also_from:
+            yield from aux(extra_root)
 
     def error_handling_transitions(self, include_states=False):
         """
@@ -5240,7 +5242,9 @@ class DfaCompileCtx:
     def _optimize_remove_inaccessible(self):
         if not ProgramData.do(ProgramFlag.REMOVE_INACCESIBLE_STATES):
             return 0
-        accessible = set(self.dfa.dfs())
+        # The start actions sit on no transition, but they can send the machine somewhere too (an append that overflows in start())
+        start_action_targets = [target for action in self.start_actions for subaction in action.all_subactions() for target in subaction.get_target_override_targets()]
+        accessible = set(self.dfa.dfs(also_from=start_action_targets))
         mod = 0
         for i in self.dfa.states.copy():
             if i not in accessible:
